@@ -115,9 +115,15 @@ func c02Check(e *core.Env, r *core.Rand, d *gen.Out, today ref.Date, nowCase boo
 	}
 	wantDiff := wantTotal - wantShould
 
+	// settings for the commands that write (rounding, default should-total, notations) have no say in an evaluation
+	cfgFile := ""
+	if core.Hash64("c02-config", d.Text)%2 == 0 {
+		cfgFile = "default_rounding = " + []string{"5m", "15m", "30m", "60m"}[core.Hash64("c02-config-r", d.Text)%4] + "\ndefault_should_total = 7h30m!\ndate_format = YYYY/MM/DD\ntime_convention = 12h\n"
+		w["config"] = cfgFile
+	}
 	for _, decimal := range []bool{false, true} {
 		res := runRO(e, &cli.Total{DiffArgs: util.DiffArgs{Diff: true}, NowArgs: util.NowArgs{Now: nowCase}, DecimalArgs: util.DecimalArgs{Decimal: decimal},
-			WarnArgs: util.WarnArgs{NoWarn: true}, NoStyleArgs: util.NoStyleArgs{NoStyle: true}, InputFilesArgs: util.InputFilesArgs{File: in}}, cpus, "", "", clock)
+			WarnArgs: util.WarnArgs{NoWarn: true}, NoStyleArgs: util.NoStyleArgs{NoStyle: true}, InputFilesArgs: util.InputFilesArgs{File: in}}, cpus, "", cfgFile, clock)
 		if res.Panic != nil {
 			e.Violation("total-panic: "+res.Panic.Site(), res.Panic.Value, w)
 			return
@@ -151,7 +157,7 @@ func c02Check(e *core.Env, r *core.Rand, d *gen.Out, today ref.Date, nowCase boo
 			if decimal {
 				args = append(args, "--decimal")
 			}
-			if !cliAgrees(e, w, append(args, f), cpus, "", "", clock, res.Out, false) {
+			if !cliAgrees(e, w, append(args, f), cpus, "", cfgFile, clock, res.Out, false) {
 				return
 			}
 		}
@@ -195,7 +201,7 @@ func c02Check(e *core.Env, r *core.Rand, d *gen.Out, today ref.Date, nowCase boo
 		return
 	}
 	// json
-	res := runRO(e, &cli.Json{NowArgs: util.NowArgs{Now: nowCase}, Pretty: r.Bool(), InputFilesArgs: util.InputFilesArgs{File: in}}, cpus, "", "", clock)
+	res := runRO(e, &cli.Json{NowArgs: util.NowArgs{Now: nowCase}, Pretty: r.Bool(), InputFilesArgs: util.InputFilesArgs{File: in}}, cpus, "", cfgFile, clock)
 	if res.Panic != nil || res.Err != nil {
 		e.Violation("json-fails", fmt.Sprintf("`klog json` failed on a valid file: panic=%v err=%v", res.Panic != nil, res.Err), w)
 		return
